@@ -220,6 +220,10 @@ type vf06Single struct {
 
 var vf06FlagBits = []PageTableEntryFlag{FlagPresent, FlagRW, FlagUserAccessible, FlagCopyOnWrite, FlagNoExecute, FlagAccessed, FlagDirty}
 
+// the remaining architectural bits of a 4 KiB leaf entry: write-through, cache-disable, bit 7 (PAT on a leaf -
+// the same bit is "huge page" on the upper levels only) and global
+var vf06AttrBits = []PageTableEntryFlag{FlagWriteThroughCaching, FlagDoNotCache, FlagHugePage, FlagGlobal}
+
 func (e *vf06Env) single(run *verifrt.Run, c vf06Single) {
 	run.Case()
 	verifrt.JournalJSON(map[string]interface{}{"single": c})
@@ -569,6 +573,39 @@ func TestVerifC06(t *testing.T) {
 			}
 		}
 	}
+	// Part 2a': the full 11-bit product of leaf flags (memory-type, PAT and global bits included): without an
+	// environment failure in quick, with every environment in thorough. The 7-bit product above already has attr=0.
+	attrEnvs := []string{"none"}
+	if run.Thorough() {
+		attrEnvs = envs
+	}
+	for _, useData := range []bool{false, true} {
+		for mask := 0; mask < 1<<uint(len(vf06FlagBits)); mask++ {
+			for amask := 1; amask < 1<<uint(len(vf06AttrBits)); amask++ {
+				var fl PageTableEntryFlag
+				for i, b := range vf06FlagBits {
+					if mask&(1<<uint(i)) != 0 {
+						fl |= b
+					}
+				}
+				for i, b := range vf06AttrBits {
+					if amask&(1<<uint(i)) != 0 {
+						fl |= b
+					}
+				}
+				for _, env := range attrEnvs {
+					for _, info := range []uint64{0, 3} {
+						if !mine() {
+							continue
+						}
+						c := vf06Single{useData, uint64(fl), -1, env, 0x10, info}
+						run.Sample(map[string]interface{}{"single": c})
+						e.single(run, c)
+					}
+				}
+			}
+		}
+	}
 	// Part 2b: sequences of faults over three pages sharing one frame, BFS over the per-page (shared/private) status
 	maxLen := 4
 	if run.Thorough() {
@@ -608,6 +645,6 @@ func TestVerifC06(t *testing.T) {
 	if run.States == 0 {
 		run.States = 1
 	}
-	run.Finish(true, fmt.Sprintf("guard: 6 entry points x 32 flag subsets x {zero, other frame} x pages; single faults: 128 leaf flag sets x {no, each upper level non-present} x 5 environments (allocation / temporary-mapping / unmap failures) x 2 offsets x %d error codes x {zero frame, data frame}; fault sequences of length <=%d over three pages sharing a frame (both fault kinds)", len(infos), maxLen),
+	run.Finish(true, fmt.Sprintf("guard: 6 entry points x 32 flag subsets x {zero, other frame} x pages; single faults: 128 leaf flag sets x {no, each upper level non-present} x 5 environments (allocation / temporary-mapping / unmap failures) x 2 offsets x %d error codes x {zero frame, data frame}; all 2048 leaf flag sets (write-through, cache-disable, PAT/bit 7 and global added) x 2 error codes x {zero frame, data frame} (thorough: x 5 environments); fault sequences of length <=%d over three pages sharing a frame (both fault kinds)", len(infos), maxLen),
 		"each case runs the real handler on memfd-backed RAM with host aliases; distinct by outcome class (recovered/panic x flags x environment)")
 }
